@@ -183,6 +183,31 @@ inline ATV makeValidATV(RealWorld& w, uint8_t endorsedAlt, uint8_t prevVbk, uint
   atv.blockOfProof = mineVbk(w, prevVbk, h.trim<16>());
   return atv;
 }
+// two statelessly valid ATVs carried by the SAME VBK block: a real two-leaf transaction tree (paths of 3 layers: sibling, the
+// other transaction tree's root, the metapackage hash), root computed with the library's own calculateMerkleRoot
+inline void makeValidATVPair(RealWorld& w, uint8_t endorsedAlt, uint8_t prevVbk, uint8_t salt1, uint8_t salt2, ATV& a1, ATV& a2) {
+  auto* ei = w.alt->getBlockIndex(altHash(endorsedAlt));
+  VBK_ASSERT(ei != nullptr);
+  PopData none;
+  AltBlock eb = mkAlt(endorsedAlt, w.parent[endorsedAlt], w.height[endorsedAlt]);
+  ATV* as[2] = {&a1, &a2}; const uint8_t salts[2] = {salt1, salt2};
+  for (int k = 0; k < 2; k++) {
+    ATV& atv = *as[k];
+    atv.transaction.networkOrType.networkType = w.vp.getTransactionMagicByte();
+    atv.transaction.networkOrType.typeId = 1;
+    atv.transaction.publicationData = GeneratePublicationData(altHeaderBytes(eb), *ei, std::vector<uint8_t>(32, 0), none, std::vector<uint8_t>{salts[k], 2, 3}, w.ap);
+    atv.transaction.signatureIndex = salts[k];
+    atv.transaction.signature = std::vector<uint8_t>(8, salts[k]);
+    atv.transaction.publicKey = std::vector<uint8_t>(8, 7);
+  }
+  uint256 h1 = a1.transaction.getHash(), h2 = a2.transaction.getHash();
+  a1.merklePath.treeIndex = 1; a1.merklePath.index = 0; a1.merklePath.subject = h1; a1.merklePath.layers = {h2, uint256(), uint256()};
+  a2.merklePath.treeIndex = 1; a2.merklePath.index = 1; a2.merklePath.subject = h2; a2.merklePath.layers = {h1, uint256(), uint256()};
+  uint128 root = a1.merklePath.calculateMerkleRoot();
+  VBK_ASSERT(root == a2.merklePath.calculateMerkleRoot());
+  a1.blockOfProof = mineVbk(w, prevVbk, root);
+  a2.blockOfProof = a1.blockOfProof;
+}
 inline VTB makeValidVTB(RealWorld& w, uint8_t endorsedVbk, uint8_t prevVbk, uint8_t prevBtc, uint8_t salt) {
   VTB v;
   auto& tx = v.transaction;
